@@ -9,6 +9,7 @@ from __future__ import annotations
 
 from typing import TYPE_CHECKING, Iterator
 
+from exabgp.bgp.message.open.capability.negotiated import Negotiated
 from exabgp.protocol.family import FamilyTuple
 
 if TYPE_CHECKING:
@@ -71,6 +72,11 @@ class Cache:
             return False
 
         if cached.attributes.index() != route.attributes.index():
+            return False
+
+        # index() leaves out what does not name the route (the label stack of labelled and
+        # VPN routes): the same prefix announced with another label is not a duplicate
+        if cached.nlri.pack_nlri(Negotiated.UNSET) != route.nlri.pack_nlri(Negotiated.UNSET):
             return False
 
         # Use route.nexthop (nexthop is stored in Route, not NLRI)
